@@ -1,7 +1,7 @@
 #!/bin/bash
 # Probe for rename brittleness on the C side: rename ten locals of the kernel template in a scratch copy of /repo and run the
 # eight checks that read the generated units.  Every alarm is a false alarm.
-rm -rf /tmp/sc_c /tmp/sc_c_ev && mkdir /tmp/sc_c && rsync -a --exclude .git /repo/ /tmp/sc_c/
+rm -rf /tmp/sc_c /tmp/sc_c_ev && mkdir /tmp/sc_c && git -C /repo archive HEAD | tar -x -C /tmp/sc_c
 sed -i 's/\bweight_norm\b/wnorm/g; s/\bweighted_form\b/wform/g; s/\bweighted_shell\b/wshell/g; s/\bweighted_radius\b/wradius/g; s/\bstep\b/istep/g; s/\bpd_value\b/pdv/g; s/\bpd_weight\b/pdw/g; s/\bq_index\b/qi/g; s/\blocal_values\b/lv/g; s/\bxs_weights\b/xw/g' /tmp/sc_c/sasmodels/kernel_iq.c
 sed -i 's/\bsin_theta\b/s_th/g; s/\bcos_theta\b/c_th/g; s/\bin_spin\b/ispin/g' /tmp/sc_c/sasmodels/kernel_iq.c
 bad=0
